@@ -241,6 +241,16 @@ func runCDirFault(r *verifsim.Run) {
 		cn.Ev = append(cn.Ev, s.next('F', false))
 	}
 	sc := &cScenario{Conns: []*cConn{cn}, Focus: "C12"}
+	if cfg.Cont && r.Chance(1, 4) {
+		// one more storage fault: the folder of the continuous recorder cannot be created (a file is in the way);
+		// its recordings fail to start, nothing else is affected
+		sc.PreFile = true
+		r.Probe("real-recorder-continuous-folder-blocked")
+	} else if r.Chance(1, 4) {
+		// ... or the whole output directory is missing when the camera connects (the medium is mounted late)
+		sc.StartGone = true
+		r.Probe("real-recorder-output-directory-missing-at-connect")
+	}
 	r.Set("conn0", cn.describe())
 	res := execPlain(sc)
 	r.SimTime(res.End.Sub(res.Start))
